@@ -33,10 +33,14 @@ RAW_RX = {
 }
 
 
+QUICK_BUDGET = {"cases": 320, "deadline_s": 110, "case_timeout_s": 120, "floors": {"submissions": 800, "start_events_checked": 400, "never_started_checked": 40, "local_enqueues": 100, "pool_spawns": 100}}
+THOROUGH_FACTOR = 36  # thorough = the same workload with 36x the cases (floors scale along)
+
+
 def budget(tier):
-    if tier == "thorough":
-        return {"cases": 4000, "deadline_s": 900, "case_timeout_s": 240, "floors": {"submissions": 12000, "start_events_checked": 6000, "never_started_checked": 800, "local_enqueues": 1500, "pool_spawns": 1500}}
-    return {"cases": 320, "deadline_s": 110, "case_timeout_s": 120, "floors": {"submissions": 800, "start_events_checked": 400, "never_started_checked": 40, "local_enqueues": 100, "pool_spawns": 100}}
+    from ..core import scaled_budget
+
+    return scaled_budget(QUICK_BUDGET, tier, THOROUGH_FACTOR, noscale=())
 
 
 def gen_case(rng, idx, tier):
